@@ -117,31 +117,45 @@ Qed.
 (* the view of sync projector j *)
 Definition projv (s : store) (j : N) : n2map N := inner3 (proj s) j.
 
-Definition btw3 (np : N) (es' es : list event) (s : store) : Prop :=
+Definition btw3 (k : conf) (np : N) (dk : N -> bool) (es' es : list event) (s : store) : Prop :=
   btw (wlog_of es') (wlog_of es) (wlog s) /\ btw (recs_of es') (recs_of es) (recs s)
-  /\ forall j, j < np -> btw (proj_of es') (proj_of es) (projv s j).
+  /\ forall j, j < np -> good (k_sees k) dk j -> btw (proj_of (dk j) es') (proj_of (dk j) es) (projv s j).
 
-Definition complete (np : N) (es : list event) (s : store) : Prop :=
+Definition complete (k : conf) (np : N) (dk : N -> bool) (es : list event) (s : store) : Prop :=
   eq2 (wlog s) (wlog_of es) /\ eq2 (recs s) (recs_of es)
-  /\ forall j, j < np -> eq2 (projv s j) (proj_of es).
+  /\ forall j, j < np -> good (k_sees k) dk j -> eq2 (projv s j) (proj_of (dk j) es).
 
 (* s' differs from s only by entries that took the value the log es gives them *)
-Definition adv3 (es : list event) (s s' : store) : Prop :=
+Definition adv3 (dk : N -> bool) (es : list event) (s s' : store) : Prop :=
   plog s' = plog s /\ adv (wlog_of es) (wlog s) (wlog s') /\ adv (recs_of es) (recs s) (recs s')
-  /\ forall j, adv (proj_of es) (projv s j) (projv s' j).
+  /\ forall j, adv (proj_of (dk j) es) (projv s j) (projv s' j).
 
-Lemma adv3_refl es s : adv3 es s s.
+Lemma adv3_refl dk es s : adv3 dk es s s.
 Proof. repeat split; try intros j; apply adv_refl. Qed.
-Lemma adv3_trans es s s' s'' : adv3 es s s' -> adv3 es s' s'' -> adv3 es s s''.
+Lemma adv3_trans dk es s s' s'' : adv3 dk es s s' -> adv3 dk es s' s'' -> adv3 dk es s s''.
 Proof.
   intros (P & W & R & J) (P' & W' & R' & J'). repeat split; [congruence| | |intros j]; eapply adv_trans; eauto.
 Qed.
-Lemma btw3_adv3 np es' es s s' : btw3 np es' es s -> adv3 es s s' -> btw3 np es' es s'.
+Lemma btw3_adv3 k np dk es' es s s' : btw3 k np dk es' es s -> adv3 dk es s s' -> btw3 k np dk es' es s'.
 Proof.
-  intros (W & R & J) (_ & W' & R' & J'). repeat split; [| |intros j Hj]; eapply btw_adv; eauto.
+  intros (W & R & J) (_ & W' & R' & J'). repeat split; [| |intros j Hj Hg]; eapply btw_adv; eauto.
 Qed.
-Lemma complete_btw3 np es' es s : complete np es s -> btw3 np es' es s.
-Proof. intros (W & R & J). repeat split; [| |intros j Hj]; apply btw_of_eq2_r; auto. Qed.
+Lemma complete_btw3 k np dk es' es s : complete k np dk es s -> btw3 k np dk es' es s.
+Proof. intros (W & R & J). repeat split; [| |intros j Hj Hg]; apply btw_of_eq2_r; auto. Qed.
+
+Lemma btw_same {A} (a m : n2map A) : btw a a m -> eq2 m a.
+Proof. intros H x y. destruct (H x y); assumption. Qed.
+
+(* a projector triggered by the re-apply is triggered by the event *)
+Lemma trig_at_trig sees reapply d e : trig_at sees reapply d e = true -> trig d e = true.
+Proof.
+  unfold trig_at, trig. destruct (reapply && negb sees); [|auto]. intros ->. reflexivity.
+Qed.
+Lemma trig_at_eq sees reapply d e : sees = true \/ d = false -> trig_at sees reapply d e = trig d e.
+Proof.
+  unfold trig_at, trig. intros [-> | ->]; [rewrite andb_false_r; reflexivity|].
+  destruct (reapply && _); reflexivity.
+Qed.
 
 Lemma put2_complete {A} (a m : n2map A) x y v :
   btw a (put2 a x y v) m -> get2 m x y = Some v -> eq2 m (put2 a x y v).
@@ -168,53 +182,63 @@ Proof.
 Qed.
 
 (* flushing the sync projectors *)
-Lemma w_proj1_adv plan j es e s l s' l' ok :
-  w_proj1 plan j e s l = (s', l', ok) ->
+Lemma w_proj1_adv dk sees reapply plan j d es e s l s' l' ok :
+  d = dk j ->
+  w_proj1 sees reapply plan (j, d) e s l = (s', l', ok) ->
   plog s' = plog s /\ wlog s' = wlog s /\ recs s' = recs s
-  /\ (forall j', adv (proj_of (es ++ [e])) (projv s j') (projv s' j'))
-  /\ (ok = true -> get2 (projv s' j) (e_ws e) (e_woff e) = Some (e_tag e)).
+  /\ (forall j', adv (proj_of (dk j') (es ++ [e])) (projv s j') (projv s' j'))
+  /\ (ok = true -> trig_at sees reapply d e = true -> get2 (projv s' j) (e_ws e) (e_woff e) = Some (e_tag e)).
 Proof.
-  unfold w_proj1. destruct (issue plan TView opPutBatch l) as [f l1].
+  intros Hd. unfold w_proj1. cbn [fst snd]. destruct (trig_at sees reapply d e) eqn:Et.
+  2:{ intros H. inversion H; subst. repeat split; [intros j'; apply adv_refl | intros _ F; discriminate F]. }
+  apply trig_at_trig in Et.
+  destruct (issue plan TView opPutBatch l) as [f l1].
   destruct (wr f false false) as [app ok1] eqn:Ew. intros H. inversion H; subst s' l' ok. clear H.
   destruct app.
   - cbn [plog wlog recs proj set_proj]. repeat split.
     + intros j'. unfold projv. cbn [proj set_proj]. destruct (N.eq_dec j j') as [<-|Hne].
-      * rewrite inner3_put3_eq. apply adv_put. rewrite proj_of_snoc. apply get2_put2_eq.
+      * rewrite inner3_put3_eq. apply adv_put. rewrite proj_of_snoc, <- Hd, Et. apply get2_put2_eq.
       * rewrite inner3_put3_neq by exact Hne. apply adv_refl.
-    + intros _. unfold projv. cbn [proj set_proj]. rewrite inner3_put3_eq. apply get2_put2_eq.
+    + intros _ _. unfold projv. cbn [proj set_proj]. rewrite inner3_put3_eq. apply get2_put2_eq.
   - repeat split; [intros j'; apply adv_refl|]. intros ->. apply wr_ok_app in Ew. discriminate.
 Qed.
 
-Lemma w_projs_adv early plan es e : forall ord s l last s' l' ok,
-  w_projs early plan ord e s l last = (s', l', ok) ->
+Lemma w_projs_adv dk early sees reapply plan es e : forall ord s l last s' l' ok,
+  (forall j d, In (j, d) ord -> d = dk j) ->
+  w_projs early sees reapply plan ord e s l last = (s', l', ok) ->
   plog s' = plog s /\ wlog s' = wlog s /\ recs s' = recs s
-  /\ (forall j', adv (proj_of (es ++ [e])) (projv s j') (projv s' j'))
+  /\ (forall j', adv (proj_of (dk j') (es ++ [e])) (projv s j') (projv s' j'))
   /\ (early = true -> ok = true ->
-      forall j, In j ord -> get2 (projv s' j) (e_ws e) (e_woff e) = Some (e_tag e)).
+      forall j d, In (j, d) ord -> trig_at sees reapply d e = true ->
+      get2 (projv s' j) (e_ws e) (e_woff e) = Some (e_tag e)).
 Proof.
-  induction ord as [|j r IH]; intros s l last s' l' ok H; cbn [w_projs] in H.
-  - inversion H; subst. repeat split; [intros j'; apply adv_refl | intros _ _ j []].
-  - destruct (w_proj1 plan j e s l) as [[s1 l1] ok1] eqn:E1.
-    destruct (w_proj1_adv plan j es e s l s1 l1 ok1 E1) as (P1 & W1 & R1 & A1 & D1).
+  induction ord as [|[j d] r IH]; intros s l last s' l' ok Hk H; cbn [w_projs] in H.
+  - inversion H; subst. repeat split; [intros j'; apply adv_refl | intros _ _ j d []].
+  - destruct (w_proj1 sees reapply plan (j, d) e s l) as [[s1 l1] ok1] eqn:E1.
+    assert (Hd : d = dk j) by (apply Hk; left; reflexivity).
+    destruct (w_proj1_adv dk sees reapply plan j d es e s l s1 l1 ok1 Hd E1) as (P1 & W1 & R1 & A1 & D1).
     destruct (negb ok1 && early) eqn:Estop.
     + inversion H; subst s' l' ok. repeat split; try assumption. intros _ F; discriminate F.
-    + destruct (IH s1 l1 ok1 s' l' ok H) as (P2 & W2 & R2 & A2 & D2).
+    + destruct (IH s1 l1 ok1 s' l' ok (fun j0 d0 Hi => Hk j0 d0 (or_intror Hi)) H) as (P2 & W2 & R2 & A2 & D2).
       repeat split; try congruence.
       * intros j'. eapply adv_trans; [apply A1 | apply A2].
-      * intros He Hok j0 [<-|Hin]; [|apply D2; assumption].
+      * intros He Hok j0 d0 [E|Hin] Ht; [|eapply D2; eassumption].
+        inversion E; subst j0 d0. clear E.
         subst early. rewrite andb_true_r in Estop. apply negb_false_iff in Estop.
-        assert (HB : get2 (proj_of (es ++ [e])) (e_ws e) (e_woff e) = Some (e_tag e))
-          by (rewrite proj_of_snoc; apply get2_put2_eq).
-        rewrite <- HB. eapply adv_sticky; [apply A2|]. rewrite HB. apply D1; exact Estop.
+        assert (HB : get2 (proj_of (dk j) (es ++ [e])) (e_ws e) (e_woff e) = Some (e_tag e)).
+        { rewrite proj_of_snoc, <- Hd, (trig_at_trig _ _ _ _ Ht). apply get2_put2_eq. }
+        rewrite <- HB. eapply adv_sticky; [apply A2|]. rewrite HB. apply D1; assumption.
 Qed.
 
-Lemma store_op_sound k ord np plan reapply es e s l :
-  wf es -> ok_event es e -> btw3 np es (es ++ [e]) s ->
+Lemma store_op_sound k ord np dk plan reapply es e s l :
+  ord_ok np dk ord ->
+  wf es -> ok_event es e -> btw3 k np dk es (es ++ [e]) s ->
   forall s' l' ok, store_op k ord plan reapply e s l = (s', l', ok) ->
-  adv3 (es ++ [e]) s s'
-  /\ (k_early k = true -> ord_ok np ord -> ok = true -> complete np (es ++ [e]) s').
+  adv3 dk (es ++ [e]) s s'
+  /\ (k_early k = true -> ok = true -> complete k np dk (es ++ [e]) s').
 Proof.
-  intros Hw Ho (Bw & Br & Bj) s' l' ok H. unfold store_op in H.
+  intros Hord Hw Ho (Bw & Br & Bj) s' l' ok H. unfold store_op in H.
+  assert (Hkinds : forall j d, In (j, d) ord -> d = dk j) by (intros j d Hi; apply Hord in Hi; apply Hi).
   destruct (results_vals es e (recs s) Ho Br (e_cuds e) (incl_refl _)) as (rs & Hr & Hv & Hm).
   rewrite Hr in H.
   (* records *)
@@ -227,26 +251,26 @@ Proof.
     - eapply w_recs_batch_adv; eassumption. }
   destruct (if recs_each (k_tl k) reapply then _ else _) as [[s1 l1] ok1] eqn:E1.
   destruct (Hrec s1 l1 ok1 eq_refl) as ((P1 & W1 & J1) & A1 & D1). clear Hrec.
-  assert (Adv1 : adv3 (es ++ [e]) s s1).
+  assert (Adv1 : adv3 dk (es ++ [e]) s s1).
   { repeat split; [exact P1 | rewrite W1; apply adv_refl | exact A1 | intros j; unfold projv; rewrite J1; apply adv_refl]. }
   destruct ok1; cbn [negb] in H.
   2:{ inversion H; subst. split; [exact Adv1 | discriminate]. }
   (* the fork *)
-  destruct (w_projs (k_early k) plan ord e s1 l1 true) as [[s2 l2] okv] eqn:Ev.
-  destruct (w_projs_adv (k_early k) plan es e ord s1 l1 true s2 l2 okv Ev) as (P2 & W2 & R2 & A2 & D2).
-  assert (Adv2 : adv3 (es ++ [e]) s1 s2).
+  destruct (w_projs (k_early k) (k_sees k) reapply plan ord e s1 l1 true) as [[s2 l2] okv] eqn:Ev.
+  destruct (w_projs_adv dk (k_early k) (k_sees k) reapply plan es e ord s1 l1 true s2 l2 okv Hkinds Ev) as (P2 & W2 & R2 & A2 & D2).
+  assert (Adv2 : adv3 dk (es ++ [e]) s1 s2).
   { repeat split; [exact P2 | rewrite W2; apply adv_refl | rewrite R2; apply adv_refl | exact A2]. }
   unfold w_wlog in H. destruct (issue plan TWLog (op_of (wlog_cond (k_tl k) reapply)) l2) as [fw l3].
   destruct (wr fw (wlog_cond (k_tl k) reapply) (is_some (get2 (wlog s2) (e_ws e) (e_woff e)))) as [appw okw] eqn:Ew.
   inversion H; subst s' l' ok. clear H.
   set (s3 := if appw then set_wlog s2 (put2 (wlog s2) (e_ws e) (e_woff e) e) else s2).
-  assert (Adv3 : adv3 (es ++ [e]) s2 s3).
+  assert (Adv3 : adv3 dk (es ++ [e]) s2 s3).
   { subst s3. destruct appw; [|apply adv3_refl]. cbn. repeat split; try (intros j); try apply adv_refl.
     apply adv_put. rewrite wlog_of_snoc. apply get2_put2_eq. }
   split; [eapply adv3_trans; [exact Adv1|]; eapply adv3_trans; eassumption|].
-  intros He Hord Hok. apply andb_prop in Hok. destruct Hok as [-> ->].
+  intros He Hok. apply andb_prop in Hok. destruct Hok as [-> ->].
   apply wr_ok_app in Ew. subst appw.
-  assert (B3 : btw3 np es (es ++ [e]) s3).
+  assert (B3 : btw3 k np dk es (es ++ [e]) s3).
   { eapply btw3_adv3; [|exact Adv3]. eapply btw3_adv3; [|exact Adv2]. eapply btw3_adv3; [|exact Adv1].
     repeat split; assumption. }
   destruct B3 as (Bw3 & Br3 & Bj3). repeat split.
@@ -257,33 +281,35 @@ Proof.
     specialize (D1 eq_refl). rewrite Forall_forall in D1. specialize (D1 x Hxin). rewrite Hx in D1.
     destruct Adv2 as (_ & _ & R2' & _). destruct Adv3 as (_ & _ & R3 & _).
     eapply adv_sticky; [exact R3|]. eapply adv_sticky; [exact R2'|]. exact D1.
-  - intros j Hj. specialize (Bj3 j Hj). rewrite proj_of_snoc in *. apply put2_complete; [exact Bj3|].
-    subst s3. cbn [projv proj set_wlog]. apply (D2 He eq_refl j). apply Hord. exact Hj.
+  - intros j Hj Hg. specialize (Bj3 j Hj Hg). rewrite proj_of_snoc in *.
+    assert (Ht : trig_at (k_sees k) reapply (dk j) e = trig (dk j) e) by (apply trig_at_eq; exact Hg).
+    destruct (trig (dk j) e) eqn:Etr.
+    + apply put2_complete; [exact Bj3|].
+      subst s3. cbn [projv proj set_wlog]. apply (D2 He eq_refl j (dk j)); [apply Hord; split; [exact Hj | reflexivity] | exact Ht].
+    + apply btw_same. exact Bj3.
 Qed.
 
 (* ---------- recovery ---------- *)
 
-Lemma btw_same {A} (a m : n2map A) : btw a a m -> eq2 m a.
-Proof. intros H x y. destruct (H x y); assumption. Qed.
-
-Lemma recover_sound k ord np plan s l es :
-  plog s = plog_of es -> wf es -> btw3 np (removelast es) es s ->
+Lemma recover_sound k ord np dk plan s l es :
+  ord_ok np dk ord ->
+  plog s = plog_of es -> wf es -> btw3 k np dk (removelast es) es s ->
   forall s' l' mp, recover k ord plan s l = (s', l', mp) ->
-  adv3 es s s'
-  /\ (forall p, mp = Some p -> p = scan_of es /\ (k_early k = true -> ord_ok np ord -> complete np es s')).
+  adv3 dk es s s'
+  /\ (forall p, mp = Some p -> p = scan_of es /\ (k_early k = true -> complete k np dk es s')).
 Proof.
-  intros Hp Hw Hb s' l' mp H. unfold recover in H. rewrite Hp in H. unfold plog_of in H.
+  intros Hord Hp Hw Hb s' l' mp H. unfold recover in H. rewrite Hp in H. unfold plog_of in H.
   rewrite map_snd_index_from in H. fold (plog_of es) in H. fold (scan_of es) in H.
   destruct (snoc_cases es) as [->|(es' & e & ->)].
   - cbn in H. inversion H; subst. split; [apply adv3_refl|].
-    intros p Hq. inversion Hq; subst. split; [reflexivity|]. intros _ _.
-    destruct Hb as (W & R & J). repeat split; [| |intros j Hj]; apply btw_same; auto.
+    intros p Hq. inversion Hq; subst. split; [reflexivity|]. intros _.
+    destruct Hb as (W & R & J). repeat split; [| |intros j Hj Hg]; apply btw_same; auto.
   - rewrite last_opt_snoc in H. rewrite removelast_last in Hb.
     apply wf_inv in Hw. destruct Hw as [Hw Ho].
     destruct (store_op k ord plan true e s l) as [[s1 l1] ok] eqn:E. inversion H; subst. clear H.
-    destruct (store_op_sound k ord np plan true es' e s l Hw Ho Hb s' l' ok E) as (Ha & Hc).
+    destruct (store_op_sound k ord np dk plan true es' e s l Hord Hw Ho Hb s' l' ok E) as (Ha & Hc).
     split; [exact Ha|]. intros p Hq. destruct ok; [|discriminate]. inversion Hq; subst.
-    split; [reflexivity|]. intros He Hord. apply Hc; auto.
+    split; [reflexivity|]. intros He. apply Hc; auto.
 Qed.
 
 (* ---------- the event built for a valid command ---------- *)
@@ -416,23 +442,23 @@ Qed.
 (* the PLog is the list es at offsets 1..n; the other stores lie between what es without its
    last event and what es stand for; when the partition state is present they are exactly what
    es stands for and the state is what a scan of the PLog gives *)
-Definition InvW (np : N) (es : list event) (st : state) : Prop :=
-  plog (sto st) = plog_of es /\ wf es /\ btw3 np (removelast es) es (sto st)
-  /\ forall p, mem st = Some p -> complete np es (sto st) /\ p = scan_of es.
+Definition InvW (k : conf) (np : N) (dk : N -> bool) (es : list event) (st : state) : Prop :=
+  plog (sto st) = plog_of es /\ wf es /\ btw3 k np dk (removelast es) es (sto st)
+  /\ forall p, mem st = Some p -> complete k np dk es (sto st) /\ p = scan_of es.
 
-Definition Inv (np : N) (st : state) : Prop := exists es, InvW np es st.
+Definition Inv (k : conf) (np : N) (dk : N -> bool) (st : state) : Prop := exists es, InvW k np dk es st.
 
-Lemma InvW_events np es st : InvW np es st -> events st = es.
+Lemma InvW_events k np dk es st : InvW k np dk es st -> events st = es.
 Proof. intros (Hp & _). unfold events. rewrite Hp. apply map_snd_index_from. Qed.
 
-Lemma Inv0 np : Inv np state0.
+Lemma Inv0 k np dk : Inv k np dk state0.
 Proof.
   exists []. split; [reflexivity|]. split; [constructor|]. split.
   - repeat split; [| |intros j Hj]; intros x y; left; reflexivity.
   - intros p H. discriminate.
 Qed.
 
-Lemma InvW_drop np es st : InvW np es st -> InvW np es (mkState (sto st) None).
+Lemma InvW_drop k np dk es st : InvW k np dk es st -> InvW k np dk es (mkState (sto st) None).
 Proof.
   intros (Hp & Hw & Hb & _). split; [exact Hp|]. split; [exact Hw|]. split; [exact Hb|].
   intros p H. discriminate.
@@ -449,8 +475,8 @@ Proof.
 Qed.
 
 (* a WLog row present in a state satisfying the invariant is the row of the log *)
-Lemma InvW_wlog_entry np es st ws w x :
-  InvW np es st -> get2 (wlog (sto st)) ws w = Some x -> get2 (wlog_of es) ws w = Some x.
+Lemma InvW_wlog_entry k np dk es st ws w x :
+  InvW k np dk es st -> get2 (wlog (sto st)) ws w = Some x -> get2 (wlog_of es) ws w = Some x.
 Proof.
   intros (_ & Hw & (Bw & _) & _) Hg. destruct (Bw ws w) as [E|E]; [|congruence].
   destruct (snoc_cases es) as [->|(es' & e & ->)]; [rewrite Hg in E; discriminate E|].
@@ -515,31 +541,31 @@ Lemma adv_wlog_kept b s s' :
   adv b (wlog s) (wlog s') -> wlog_kept s s'.
 Proof. intros Hb Ha ws w x Hg. destruct (Ha ws w) as [E|E]; rewrite E; [apply Hb|]; exact Hg. Qed.
 
-Lemma process_spec k ord np tag c plan st st' o es :
-  k_early k = true -> ord_ok np ord ->
-  InvW np es st -> process k ord tag c plan st = (st', o) ->
+Lemma process_spec k ord np dk tag c plan st st' o es :
+  k_early k = true -> ord_ok np dk ord ->
+  InvW k np dk es st -> process k ord tag c plan st = (st', o) ->
   wlog_kept (sto st) (sto st') /\
-  ((o_written o = false /\ InvW np es st' /\ (forall w ids, o_reply o <> ROk w ids))
-   \/ (o_written o = true /\ exists e, InvW np (es ++ [e]) st' /\ e_tag e = tag
+  ((o_written o = false /\ InvW k np dk es st' /\ (forall w ids, o_reply o <> ROk w ids))
+   \/ (o_written o = true /\ exists e, InvW k np dk (es ++ [e]) st' /\ e_tag e = tag
          /\ event_matches c e = true /\ reply_fits o e)).
 Proof.
   intros He Hord HI H. pose proof HI as (Hp & Hw & Hb & Hm). unfold process in H.
   (* recovery, if the partition state is absent *)
   assert (Hrec : exists s0 l0 mp,
     (match mem st with Some p => (sto st, [], Some p) | None => recover k ord plan (sto st) [] end) = (s0, l0, mp)
-    /\ adv3 es (sto st) s0 /\ (forall p, mp = Some p -> complete np es s0 /\ p = scan_of es)).
+    /\ adv3 dk es (sto st) s0 /\ (forall p, mp = Some p -> complete k np dk es s0 /\ p = scan_of es)).
   { destruct (mem st) as [p|] eqn:Em.
     - exists (sto st), [], (Some p). split; [reflexivity|]. split; [apply adv3_refl|].
       intros p' E. inversion E; subst. apply Hm. reflexivity.
     - destruct (recover k ord plan (sto st) []) as [[s0 l0] mp] eqn:Er. exists s0, l0, mp.
       split; [reflexivity|].
-      destruct (recover_sound k ord np plan (sto st) [] es Hp Hw Hb s0 l0 mp Er) as (Ha & Hc).
+      destruct (recover_sound k ord np dk plan (sto st) [] es Hord Hp Hw Hb s0 l0 mp Er) as (Ha & Hc).
       split; [exact Ha|]. intros p E. destruct (Hc p E) as (-> & Hcomp). split; [apply Hcomp; assumption | reflexivity]. }
   destruct Hrec as (s0 & l0 & mp & Er & Ha0 & Hc0). rewrite Er in H. clear Er.
   assert (Hk0 : wlog_kept (sto st) s0).
-  { eapply adv_wlog_kept; [|apply Ha0]. intros ws w x. apply (InvW_wlog_entry np es st); exact HI. }
+  { eapply adv_wlog_kept; [|apply Ha0]. intros ws w x. apply (InvW_wlog_entry k np dk es st); exact HI. }
   assert (Hp0 : plog s0 = plog_of es) by (destruct Ha0 as (P & _); congruence).
-  assert (Hb0 : btw3 np (removelast es) es s0) by (eapply btw3_adv3; eassumption).
+  assert (Hb0 : btw3 k np dk (removelast es) es s0) by (eapply btw3_adv3; eassumption).
   destruct mp as [p|].
   2:{ inversion H; subst. split; [exact Hk0|]. left. cbn. split; [reflexivity|]. split; [|discriminate].
       split; [exact Hp0|]. split; [exact Hw|]. split; [exact Hb0|]. intros p E. discriminate. }
@@ -560,8 +586,8 @@ Proof.
   assert (Hk1 : wlog_kept (sto st) s1) by (intros ws w x Hg; rewrite W1; apply Hk0; exact Hg).
   assert (Hp1 : app = true -> plog s1 = plog_of (es ++ [e])).
   { intros ->. subst s1. cbn [plog set_plog]. rewrite Hp0, nextP_scan_of. unfold plog_of. apply nput_index_snoc. }
-  assert (Hb1 : btw3 np es (es ++ [e]) s1).
-  { destruct Hc as (Cw & Cr & Cj). repeat split; [| |intros j Hj; unfold projv; rewrite J1; apply btw_of_eq2_l; apply Cj; exact Hj];
+  assert (Hb1 : btw3 k np dk es (es ++ [e]) s1).
+  { destruct Hc as (Cw & Cr & Cj). repeat split; [| |intros j Hj Hg; unfold projv; rewrite J1; apply btw_of_eq2_l; apply Cj; assumption];
       apply btw_of_eq2_l; congruence. }
   assert (Hmatch : e_tag e = tag /\ event_matches c e = true) by (split; [reflexivity | apply build_matches]).
   destruct okp; cbn [negb] in H.
@@ -577,14 +603,14 @@ Proof.
   apply wr_ok_app in Ewp. subst app. specialize (Hp1 eq_refl).
   (* the store operator *)
   destruct (store_op k ord plan false e s1 l1) as [[s2 l2] oks] eqn:Es.
-  destruct (store_op_sound k ord np plan false es e s1 l1 Hw Ho Hb1 s2 l2 oks Es) as (Ha2 & Hc2).
+  destruct (store_op_sound k ord np dk plan false es e s1 l1 Hord Hw Ho Hb1 s2 l2 oks Es) as (Ha2 & Hc2).
   assert (Hk2 : wlog_kept (sto st) s2).
   { intros ws w x Hg. specialize (Hk1 ws w x Hg).
     eapply (adv_wlog_kept (wlog_of (es ++ [e])) s1 s2); [|apply Ha2|exact Hk1].
     intros ws' w' x' Hg'. rewrite W1 in Hg'. destruct Hc as (Cw & _). rewrite Cw in Hg'.
     apply wlog_of_mono; assumption. }
   assert (Hp2 : plog s2 = plog_of (es ++ [e])) by (destruct Ha2 as (P & _); congruence).
-  assert (Hb2 : btw3 np es (es ++ [e]) s2) by (eapply btw3_adv3; eassumption).
+  assert (Hb2 : btw3 k np dk es (es ++ [e]) s2) by (eapply btw3_adv3; eassumption).
   split; [destruct oks; inversion H; subst; exact Hk2|]. right.
   destruct oks; cbn [negb] in H; inversion H; subst st' o; clear H; cbn [o_written o_reply];
     (split; [reflexivity|]); exists e; (split; [|split; [apply Hmatch|split; [apply Hmatch|]]]).
@@ -618,9 +644,9 @@ Definition log_fits (e : event) (x : N * command * outcome) : Prop :=
 Lemma wlog_kept_trans s s' s'' : wlog_kept s s' -> wlog_kept s' s'' -> wlog_kept s s''.
 Proof. intros H1 H2 ws w x Hg. apply H2, H1, Hg. Qed.
 
-Lemma run_spec k ords np : k_early k = true -> ords_ok np ords -> forall steps tag st st' outs es,
-  InvW np es st -> run k ords tag steps st = (st', outs) ->
-  exists evs, InvW np (es ++ evs) st' /\ wlog_kept (sto st) (sto st')
+Lemma run_spec k ords np dk : k_early k = true -> ords_ok np dk ords -> forall steps tag st st' outs es,
+  InvW k np dk es st -> run k ords tag steps st = (st', outs) ->
+  exists evs, InvW k np dk (es ++ evs) st' /\ wlog_kept (sto st) (sto st')
     /\ Forall2 log_fits evs (written_cmds tag steps outs)
     /\ Forall (fun o => forall w ids, o_reply o = ROk w ids -> o_written o = true) outs
     /\ (k_fx k = true -> Forall (fun o => o_reply o <> RNone) outs).
@@ -631,7 +657,7 @@ Proof.
   - destruct stp as [c plan|].
     + destruct (process k (ords tag) tag c plan st) as [st1 o] eqn:Ep.
       destruct (run k ords (tag + 1) r st1) as [st2 os] eqn:Er. inversion H; subst st' outs. clear H.
-      destruct (process_spec k (ords tag) np tag c plan st st1 o es He (Hords tag) HI Ep) as (Hk & Hcase).
+      destruct (process_spec k (ords tag) np dk tag c plan st st1 o es He (Hords tag) HI Ep) as (Hk & Hcase).
       assert (Hfx : k_fx k = true -> o_reply o <> RNone).
       { intros F. eapply process_reply_fx; [exact F | exact Ep]. }
       destruct Hcase as [(Hwr & HI1 & Hno)|(Hwr & e & HI1 & Ht & Hm & Hf)].
@@ -647,7 +673,7 @@ Proof.
         -- unfold log_fits. repeat split; assumption.
         -- split; [constructor; [intros; exact Hwr | exact Hok]|].
            intros F. constructor; [apply Hfx; exact F | apply Hn; exact F].
-    + destruct (IH tag (mkState (sto st) None) st' outs es (InvW_drop np es st HI) H) as (evs & HI2 & Hk2 & Hl & Hok & Hn).
+    + destruct (IH tag (mkState (sto st) None) st' outs es (InvW_drop k np dk es st HI) H) as (evs & HI2 & Hk2 & Hl & Hok & Hn).
       exists evs. split; [exact HI2|]. split; [exact Hk2|]. split; [exact Hl|]. split; assumption.
 Qed.
 
@@ -670,15 +696,15 @@ Qed.
 
 (* ---------- complete stores are consistent ---------- *)
 
-Lemma complete_consistent np es s :
-  plog s = plog_of es -> wf es -> complete np es s -> consistent np s.
+Lemma complete_consistent k np dk es s :
+  plog s = plog_of es -> wf es -> complete k np dk es s -> consistent np dk (good (k_sees k) dk) s.
 Proof.
   intros Hp Hw (Cw & Cr & Cj). unfold consistent. rewrite Hp. unfold plog_of.
   rewrite map_snd_index_from, map_fst_index_from. split; [reflexivity|]. split; [|split; [|split]].
   - intros ws w. rewrite Cw. apply wlog_of_get; exact Hw.
   - apply woffs_of; exact Hw.
   - exact Cr.
-  - intros j Hj ws w. unfold get3. fold (projv s j). rewrite (Cj j Hj), Cw. apply proj_of_get.
+  - intros j Hj Hg ws w. unfold get3. fold (projv s j). rewrite (Cj j Hj Hg), Cw. apply proj_of_get; exact Hw.
 Qed.
 
 (* ---------- a recovery without faults succeeds ---------- *)
@@ -687,17 +713,20 @@ Definition reapply_unconditional : Prop :=
   c05_reapply_wlog_op = 0 /\ (forall tl, tl_flag c05_rec_reapply_ops tl = false).
 
 (* without faults every projector is flushed successfully *)
-Lemma w_projs_clean early e : forall ord s l, exists s' l', w_projs early [] ord e s l true = (s', l', true) /\ wlog s' = wlog s.
+Lemma w_projs_clean early sees reapply e : forall ord s l,
+  exists s' l', w_projs early sees reapply [] ord e s l true = (s', l', true) /\ wlog s' = wlog s.
 Proof.
-  induction ord as [|j r IH]; intros s l; cbn [w_projs].
+  induction ord as [|jd r IH]; intros s l; cbn [w_projs].
   - eexists; eexists; split; reflexivity.
-  - unfold w_proj1, issue. cbn [fault_at wr negb andb].
-    destruct (IH (set_proj s (put3 (proj s) j (e_ws e) (e_woff e) (e_tag e))) (l ++ [(TView, opPutBatch)])) as (s' & l' & E & W).
-    exists s', l'. split; [exact E | exact W].
+  - unfold w_proj1. destruct (trig_at sees reapply (snd jd) e).
+    + unfold issue. cbn [fault_at wr negb andb].
+      destruct (IH (set_proj s (put3 (proj s) (fst jd) (e_ws e) (e_woff e) (e_tag e))) (l ++ [(TView, opPutBatch)])) as (s' & l' & E & W).
+      exists s', l'. split; [exact E | exact W].
+    + cbn [negb andb]. apply IH.
 Qed.
 
-Lemma store_op_reapply_ok k ord np es e s l :
-  reapply_unconditional -> wf es -> ok_event es e -> btw3 np es (es ++ [e]) s ->
+Lemma store_op_reapply_ok k ord np dk es e s l :
+  reapply_unconditional -> wf es -> ok_event es e -> btw3 k np dk es (es ++ [e]) s ->
   exists s' l', store_op k ord [] true e s l = (s', l', true).
 Proof.
   intros (Hwl & Hrc) Hw Ho (_ & Br & _). unfold store_op.
@@ -706,24 +735,24 @@ Proof.
   assert (Hb : exists s1 l1, w_recs_batch [] (e_ws e) rs s l = (s1, l1, true)).
   { unfold w_recs_batch, issue. cbn [fault_at wr]. destruct rs; eexists; eexists; reflexivity. }
   destruct Hb as (s1 & l1 & E1). rewrite E1. cbn [negb].
-  destruct (w_projs_clean (k_early k) e ord s1 l1) as (s2 & l2 & E2 & _). rewrite E2.
+  destruct (w_projs_clean (k_early k) (k_sees k) true e ord s1 l1) as (s2 & l2 & E2 & _). rewrite E2.
   unfold w_wlog, issue. cbn [fault_at wr andb]. eexists; eexists; reflexivity.
 Qed.
 
-Lemma recover_clean k ord np es st :
-  k_early k = true -> ord_ok np ord ->
-  reapply_unconditional -> InvW np es st ->
-  exists s' l', recover k ord [] (sto st) [] = (s', l', Some (scan_of es)) /\ plog s' = plog_of es /\ complete np es s'.
+Lemma recover_clean k ord np dk es st :
+  k_early k = true -> ord_ok np dk ord ->
+  reapply_unconditional -> InvW k np dk es st ->
+  exists s' l', recover k ord [] (sto st) [] = (s', l', Some (scan_of es)) /\ plog s' = plog_of es /\ complete k np dk es s'.
 Proof.
   intros He Hord Hu (Hp & Hw & Hb & _).
   destruct (recover k ord [] (sto st) []) as [[s' l'] mp] eqn:Er.
-  destruct (recover_sound k ord np [] (sto st) [] es Hp Hw Hb s' l' mp Er) as ((P & _) & Hc).
+  destruct (recover_sound k ord np dk [] (sto st) [] es Hord Hp Hw Hb s' l' mp Er) as ((P & _) & Hc).
   assert (Hsome : mp <> None).
   { unfold recover in Er. rewrite Hp in Er. unfold plog_of in Er. rewrite map_snd_index_from in Er.
     destruct (snoc_cases es) as [->|(es' & e & ->)].
     - cbn in Er. inversion Er. discriminate.
     - rewrite last_opt_snoc in Er. rewrite removelast_last in Hb. apply wf_inv in Hw. destruct Hw as [Hw Ho].
-      destruct (store_op_reapply_ok k ord np es' e (sto st) [] Hu Hw Ho Hb) as (s1 & l1 & E).
+      destruct (store_op_reapply_ok k ord np dk es' e (sto st) [] Hu Hw Ho Hb) as (s1 & l1 & E).
       fold (plog_of (es' ++ [e])) in Er. rewrite E in Er. inversion Er. discriminate. }
   destruct mp as [p|]; [|congruence]. destruct (Hc p eq_refl) as (-> & Hcomp).
   exists s', l'. split; [reflexivity|]. split; [congruence | apply Hcomp; assumption].
@@ -731,49 +760,49 @@ Qed.
 
 (* ---------- the theorems of Properties/C01.v ---------- *)
 
-Lemma run_reach k ords np steps st outs :
-  k_early k = true -> ords_ok np ords ->
+Lemma run_reach k ords np dk steps st outs :
+  k_early k = true -> ords_ok np dk ords ->
   run k ords 1 steps state0 = (st, outs) ->
-  exists es, InvW np es st /\ Forall2 log_fits es (written_cmds 1 steps outs)
+  exists es, InvW k np dk es st /\ Forall2 log_fits es (written_cmds 1 steps outs)
     /\ Forall (fun o => forall w ids, o_reply o = ROk w ids -> o_written o = true) outs.
 Proof.
-  intros He Hords H. destruct (Inv0 np) as (es0 & HI0).
-  assert (es0 = []) by (rewrite <- (InvW_events np es0 state0 HI0); reflexivity). subst es0.
-  destruct (run_spec k ords np He Hords steps 1 state0 st outs [] HI0 H) as (evs & HI & _ & Hl & Hok & Hn).
+  intros He Hords H. destruct (Inv0 k np dk) as (es0 & HI0).
+  assert (es0 = []) by (rewrite <- (InvW_events k np dk es0 state0 HI0); reflexivity). subst es0.
+  destruct (run_spec k ords np dk He Hords steps 1 state0 st outs [] HI0 H) as (evs & HI & _ & Hl & Hok & Hn).
   exists evs. cbn [app] in HI. split; [exact HI|]. split; [exact Hl|]. exact Hok.
 Qed.
 
-Theorem recovery_restores_consistency_proved k ords np steps st outs :
-  k_early k = true -> ords_ok np ords ->
+Theorem recovery_restores_consistency_proved k ords np dk steps st outs :
+  k_early k = true -> ords_ok np dk ords ->
   reapply_unconditional ->
   run k ords 1 steps state0 = (st, outs) ->
-  forall ord, ord_ok np ord ->
+  forall ord, ord_ok np dk ord ->
   exists s' l' p, recover k ord [] (sto st) [] = (s', l', Some p)
-    /\ plog s' = plog (sto st) /\ consistent np s'.
+    /\ plog s' = plog (sto st) /\ consistent np dk (good (k_sees k) dk) s'.
 Proof.
-  intros He Hords Hu H ord Hord. destruct (run_reach k ords np steps st outs He Hords H) as (es & HI & _).
-  destruct (recover_clean k ord np es st He Hord Hu HI) as (s' & l' & Er & Hp & Hc).
+  intros He Hords Hu H ord Hord. destruct (run_reach k ords np dk steps st outs He Hords H) as (es & HI & _).
+  destruct (recover_clean k ord np dk es st He Hord Hu HI) as (s' & l' & Er & Hp & Hc).
   exists s', l', (scan_of es). split; [exact Er|]. pose proof HI as (Hp0 & Hw & _).
   split; [congruence|]. eapply complete_consistent; eassumption.
 Qed.
 
-Theorem serving_state_consistent_proved k ords np steps st outs :
-  k_early k = true -> ords_ok np ords ->
-  run k ords 1 steps state0 = (st, outs) -> mem st <> None -> consistent np (sto st).
+Theorem serving_state_consistent_proved k ords np dk steps st outs :
+  k_early k = true -> ords_ok np dk ords ->
+  run k ords 1 steps state0 = (st, outs) -> mem st <> None -> consistent np dk (good (k_sees k) dk) (sto st).
 Proof.
-  intros He Hords H Hm. destruct (run_reach k ords np steps st outs He Hords H) as (es & (Hp & Hw & _ & Hc) & _).
+  intros He Hords H Hm. destruct (run_reach k ords np dk steps st outs He Hords H) as (es & (Hp & Hw & _ & Hc) & _).
   destruct (mem st) as [p|]; [|congruence]. destruct (Hc p eq_refl) as (Hcomp & _).
   eapply complete_consistent; eassumption.
 Qed.
 
-Theorem log_is_the_written_commands_proved k ords np steps st outs :
-  k_early k = true -> ords_ok np ords ->
+Theorem log_is_the_written_commands_proved k ords np dk steps st outs :
+  k_early k = true -> ords_ok np dk ords ->
   run k ords 1 steps state0 = (st, outs) ->
   Forall2 log_fits (events st) (written_cmds 1 steps outs)
   /\ Forall (fun o => forall w ids, o_reply o = ROk w ids -> o_written o = true) outs.
 Proof.
-  intros He Hords H. destruct (run_reach k ords np steps st outs He Hords H) as (es & HI & Hl & Hok).
-  rewrite (InvW_events np es st HI). split; assumption.
+  intros He Hords H. destruct (run_reach k ords np dk steps st outs He Hords H) as (es & HI & Hl & Hok).
+  rewrite (InvW_events k np dk es st HI). split; assumption.
 Qed.
 
 (* exactly one reply: needs nothing but putPLog handing the error on *)
@@ -797,17 +826,18 @@ Proof.
   apply nth_error_None. lia.
 Qed.
 
-Lemma process_reply_noplog k ord np tag c plan st st' o es :
-  InvW np es st -> (forall i, fault_at plan TPLog i = None) ->
+Lemma process_reply_noplog k ord np dk tag c plan st st' o es :
+  ord_ok np dk ord ->
+  InvW k np dk es st -> (forall i, fault_at plan TPLog i = None) ->
   process k ord tag c plan st = (st', o) -> o_reply o <> RNone.
 Proof.
-  intros HI Hnf. pose proof HI as (Hp & Hw & Hb & Hm). unfold process.
+  intros Hord HI Hnf. pose proof HI as (Hp & Hw & Hb & Hm). unfold process.
   assert (Hrec : forall s0 l0 p,
     (match mem st with Some p => (sto st, [], Some p) | None => recover k ord plan (sto st) [] end) = (s0, l0, Some p) ->
     plog s0 = plog_of es /\ p = scan_of es).
   { intros s0 l0 p E. destruct (mem st) as [q|] eqn:Em.
     - inversion E; subst. split; [exact Hp | apply Hm; reflexivity].
-    - destruct (recover_sound k ord np plan (sto st) [] es Hp Hw Hb s0 l0 (Some p) E) as ((P & _) & Hc).
+    - destruct (recover_sound k ord np dk plan (sto st) [] es Hord Hp Hw Hb s0 l0 (Some p) E) as ((P & _) & Hc).
       split; [congruence | apply Hc; reflexivity]. }
   destruct (match mem st with Some p => (sto st, [], Some p) | None => recover k ord plan (sto st) [] end) as [[s0 l0] mp].
   destruct mp as [p|]; [|intros H; inversion H; discriminate].
@@ -819,8 +849,8 @@ Proof.
   destruct oks; cbn [negb]; intros H; inversion H; discriminate.
 Qed.
 
-Lemma run_noplog k ords np : k_early k = true -> ords_ok np ords -> forall steps tag st st' outs es,
-  InvW np es st -> no_plog_fault steps -> run k ords tag steps st = (st', outs) ->
+Lemma run_noplog k ords np dk : k_early k = true -> ords_ok np dk ords -> forall steps tag st st' outs es,
+  InvW k np dk es st -> no_plog_fault steps -> run k ords tag steps st = (st', outs) ->
   Forall (fun o => o_reply o <> RNone) outs.
 Proof.
   intros He Hords. induction steps as [|stp r IH]; intros tag st st' outs es HI Hnf H; cbn [run] in H.
@@ -830,20 +860,20 @@ Proof.
     + destruct (process k (ords tag) tag c plan st) as [st1 o] eqn:Ep.
       destruct (run k ords (tag + 1) r st1) as [st2 os] eqn:Er. inversion H; subst st' outs. clear H.
       constructor.
-      * eapply process_reply_noplog; [exact HI | apply (Hnf c plan); left; reflexivity | exact Ep].
-      * destruct (process_spec k (ords tag) np tag c plan st st1 o es He (Hords tag) HI Ep) as (_ & [(_ & HI1 & _)|(_ & e & HI1 & _)]);
+      * eapply process_reply_noplog; [apply Hords | exact HI | apply (Hnf c plan); left; reflexivity | exact Ep].
+      * destruct (process_spec k (ords tag) np dk tag c plan st st1 o es He (Hords tag) HI Ep) as (_ & [(_ & HI1 & _)|(_ & e & HI1 & _)]);
           eapply IH; eassumption.
     + eapply IH; [apply InvW_drop; exact HI | exact Hnf' | exact H].
 Qed.
 
-Theorem every_command_answered_partial_proved k ords np steps st outs :
-  k_early k = true -> ords_ok np ords ->
+Theorem every_command_answered_partial_proved k ords np dk steps st outs :
+  k_early k = true -> ords_ok np dk ords ->
   no_plog_fault steps -> run k ords 1 steps state0 = (st, outs) -> Forall (fun o => o_reply o <> RNone) outs.
-Proof. intros He Hords Hnf H. destruct (Inv0 np) as (es0 & HI0). eapply run_noplog; eassumption. Qed.
+Proof. intros He Hords Hnf H. destruct (Inv0 k np dk) as (es0 & HI0). eapply run_noplog; eassumption. Qed.
 
 (* offsets are never reused: what a log holds at an offset it holds for ever *)
-Theorem log_entries_never_change_proved k ords np steps1 steps2 st1 outs1 st2 outs2 :
-  k_early k = true -> ords_ok np ords ->
+Theorem log_entries_never_change_proved k ords np dk steps1 steps2 st1 outs1 st2 outs2 :
+  k_early k = true -> ords_ok np dk ords ->
   run k ords 1 steps1 state0 = (st1, outs1) ->
   run k ords 1 (steps1 ++ steps2) state0 = (st2, outs2) ->
   (forall o e, nget (plog (sto st1)) o = Some e -> nget (plog (sto st2)) o = Some e)
@@ -851,8 +881,8 @@ Theorem log_entries_never_change_proved k ords np steps1 steps2 st1 outs1 st2 ou
 Proof.
   intros He Hords H1 H2. rewrite run_app, H1 in H2.
   destruct (run k ords _ steps2 st1) as [st2' o2] eqn:E2. inversion H2; subst st2' outs2. clear H2.
-  destruct (run_reach k ords np steps1 st1 outs1 He Hords H1) as (es & HI & _).
-  destruct (run_spec k ords np He Hords steps2 _ st1 st2 o2 es HI E2) as (evs & HI2 & Hk & _).
+  destruct (run_reach k ords np dk steps1 st1 outs1 He Hords H1) as (es & HI & _).
+  destruct (run_spec k ords np dk He Hords steps2 _ st1 st2 o2 es HI E2) as (evs & HI2 & Hk & _).
   split; [|exact Hk].
   destruct HI as (Hp & _). destruct HI2 as (Hp2 & _). rewrite Hp, Hp2. unfold plog_of.
   intros o e. rewrite !nget_index_from. destruct (o <? 1); [discriminate|].
@@ -915,7 +945,7 @@ Proof.
       + exists s1, l1. split; [exact E|]. eapply w_recs_each_adv in E; [|exact Hv]. apply E.
     - unfold w_recs_batch, issue. cbn [fault_at wr]. destruct rs; eexists; eexists; split; reflexivity. }
   destruct Hrecs as (s1 & l1 & E1 & W1). rewrite E1. cbn [negb].
-  destruct (w_projs_clean (k_early k) e ord s1 l1) as (s2 & l2 & E2 & W2). rewrite E2.
+  destruct (w_projs_clean (k_early k) (k_sees k) false e ord s1 l1) as (s2 & l2 & E2 & W2). rewrite E2.
   unfold w_wlog, issue. cbn [fault_at wr].
   rewrite W2, W1, Cw, (wlog_slot_free es e Hw Ho). cbn [is_some].
   rewrite andb_false_r. cbn [andb]. eexists; eexists; reflexivity.
@@ -930,19 +960,19 @@ Proof.
   rewrite H, H2, H0, (Hg _ H1). reflexivity.
 Qed.
 
-Lemma process_clean k ord np tag c st st' o es :
-  k_early k = true -> ord_ok np ord ->
-  reapply_unconditional -> InvW np es st -> insert_only c = true ->
+Lemma process_clean k ord np dk tag c st st' o es :
+  k_early k = true -> ord_ok np dk ord ->
+  reapply_unconditional -> InvW k np dk es st -> insert_only c = true ->
   process k ord tag c [] st = (st', o) ->
   (exists w ids, o_reply o = ROk w ids) /\ mem st' <> None.
 Proof.
   intros He Hord Hu HI Hins. pose proof HI as (Hp & Hw & Hb & Hm). unfold process.
   assert (Hrec : exists s0 l0,
     (match mem st with Some p => (sto st, [], Some p) | None => recover k ord [] (sto st) [] end) = (s0, l0, Some (scan_of es))
-    /\ plog s0 = plog_of es /\ complete np es s0).
+    /\ plog s0 = plog_of es /\ complete k np dk es s0).
   { destruct (mem st) as [p|] eqn:Em.
     - destruct (Hm p eq_refl) as (Hc & ->). exists (sto st), []. repeat split; try assumption; apply Hc.
-    - destruct (recover_clean k ord np es st He Hord Hu HI) as (s' & l' & E & P & C). exists s', l'. repeat split; try assumption; apply C. }
+    - destruct (recover_clean k ord np dk es st He Hord Hu HI) as (s' & l' & E & P & C). exists s', l'. repeat split; try assumption; apply C. }
   destruct Hrec as (s0 & l0 & E & Hp0 & Hc). rewrite E.
   rewrite (insert_only_valid s0 c Hins). cbn [negb].
   set (e := build_event s0 (scan_of es) tag c).
@@ -954,17 +984,17 @@ Proof.
   rewrite Es. cbn [negb]. intros H. inversion H; subst. cbn. split; [eexists; eexists; reflexivity | discriminate].
 Qed.
 
-Theorem clean_command_succeeds_proved k ords np steps c st outs :
-  k_early k = true -> ords_ok np ords ->
+Theorem clean_command_succeeds_proved k ords np dk steps c st outs :
+  k_early k = true -> ords_ok np dk ords ->
   reapply_unconditional -> insert_only c = true ->
   run k ords 1 (steps ++ [SCmd c []]) state0 = (st, outs) ->
-  (exists w ids, option_map o_reply (last_opt outs) = Some (ROk w ids)) /\ consistent np (sto st).
+  (exists w ids, option_map o_reply (last_opt outs) = Some (ROk w ids)) /\ consistent np dk (good (k_sees k) dk) (sto st).
 Proof.
   intros He Hords Hu Hins H. pose proof H as H'. rewrite run_app in H.
   destruct (run k ords 1 steps state0) as [st1 o1] eqn:E1.
-  destruct (run_reach k ords np steps st1 o1 He Hords E1) as (es & HI & _).
+  destruct (run_reach k ords np dk steps st1 o1 He Hords E1) as (es & HI & _).
   cbn [run] in H. destruct (process k (ords _) _ c [] st1) as [st2 o] eqn:Ep. inversion H; subst st outs.
-  destruct (process_clean k (ords _) np _ c st1 st2 o es He (Hords _) Hu HI Hins Ep) as ((w & ids & Hr) & Hm).
+  destruct (process_clean k (ords _) np dk _ c st1 st2 o es He (Hords _) Hu HI Hins Ep) as ((w & ids & Hr) & Hm).
   split.
   - exists w, ids. rewrite last_opt_snoc. cbn. rewrite Hr. reflexivity.
   - eapply serving_state_consistent_proved; [exact He | exact Hords | exact H' | exact Hm].
@@ -992,12 +1022,12 @@ Proof.
   - rewrite <- recs_of_snoc. apply IH. exact H.
 Qed.
 
-Theorem log_rows_well_formed_proved k ords np steps st outs :
-  k_early k = true -> ords_ok np ords ->
+Theorem log_rows_well_formed_proved k ords np dk steps st outs :
+  k_early k = true -> ords_ok np dk ords ->
   run k ords 1 steps state0 = (st, outs) -> acts_ok [] (events st) = true.
 Proof.
-  intros He Hords H. destruct (run_reach k ords np steps st outs He Hords H) as (es & HI & _).
-  rewrite (InvW_events np es st HI). destruct HI as (_ & Hw & _).
+  intros He Hords H. destruct (run_reach k ords np dk steps st outs He Hords H) as (es & HI & _).
+  rewrite (InvW_events k np dk es st HI). destruct HI as (_ & Hw & _).
   apply (acts_ok_wf es []). exact Hw.
 Qed.
 
@@ -1056,15 +1086,15 @@ Qed.
 
 (* a command is in the log (and then in every store, by consistency) iff its PLog write took
    effect, whatever it was answered *)
-Theorem command_in_log_iff_written_proved k ords np steps st outs :
-  k_early k = true -> ords_ok np ords ->
+Theorem command_in_log_iff_written_proved k ords np dk steps st outs :
+  k_early k = true -> ords_ok np dk ords ->
   run k ords 1 steps state0 = (st, outs) ->
   forall t c o, In (t, c, o) (stamped 1 steps outs) ->
   (o_written o = true -> exists e, In e (events st) /\ e_tag e = t /\ event_matches c e = true /\ reply_fits o e)
   /\ (o_written o = false -> forall e, In e (events st) -> e_tag e <> t).
 Proof.
   intros He Hords H t c o Hin.
-  destruct (log_is_the_written_commands_proved k ords np steps st outs He Hords H) as (Hl & _).
+  destruct (log_is_the_written_commands_proved k ords np dk steps st outs He Hords H) as (Hl & _).
   split.
   - intros Hw. assert (Hx : In (t, c, o) (written_cmds 1 steps outs)) by (apply written_stamped; split; assumption).
     destruct (Forall2_in_r _ _ _ Hl _ Hx) as (e & He' & Hf). exists e. split; [exact He'|]. exact Hf.
